@@ -7,6 +7,7 @@
 #define VP_RT_H
 
 #include <stdatomic.h>
+#include <pthread.h>
 #include <stdint.h>
 #include <stdio.h>
 #include <stdlib.h>
@@ -159,6 +160,7 @@ long vp_ghost_pending_total(void);
 long vp_ghost_sleepers(void);
 long vp_ghost_fdwaiters(void);
 long vp_ghost_live_fibers(void);
+int vp_preempt_now(pthread_t t);
 void vp_ghost_check_starved(void);
 uint64_t vp_ghost_ticks(void);
 // what the tick base would be at monotonic time at_ns if every timer expiration had been accounted on time (diagnostics; 0 = unknown)
